@@ -204,15 +204,28 @@ var wfKinds = []string{"StatefulSet", "StatefulSet", "ReplicaSet", "ReplicaSet",
 	"ReplicationController", "CloneSet", "Rollout", "X", "Pool--x", "a-b"}
 var malformedKinds = []string{"", "My_Kind", "_", "a_", "_b", "pool_"}
 
+// KindZoo: owner kinds the HTTP worlds and the codec stream must always cover: kinds ending in s / ss / es,
+// one-letter kinds, mixed case, digits, kinds equal (up to case) to the words of the app-type tables, very long kinds.
+var KindZoo = []string{"Redis", "Canvas", "Compass", "Class", "Access", "Aliases", "Indexes", "Kubernetes", "S", "s", "ss", "Ss", "es",
+	"X", "x", "A1", "K8s", "V2Alpha1S", "9", "0s", "mIxEdCaSe", "UPPERS", "lowers", "StatefulSets", "statefulsets", "statefulset",
+	"Deployment", "deployment", "Deployments", "replicaset", "ReplicaSets", "NULL", "null", "Null", "NULLS", "nulls", "sts", "stss", "dp", "dps",
+	"pool", "pools", "TApp", "TApps", "Job", "Jobs", "DaemonSet",
+	"VeryLongCustomResourceKindNameThatGoesOnAndOnAndOnAndOnAndOnAndOnAndOnUntilItIsLongerThanSixtyThreeBytes",
+	"VeryLongCustomResourceKindNameThatGoesOnAndOnAndOnAndOnAndOnAndOnAndOnUntilItIsLongerThanSixtyThreeBytess"}
+
 func RandomKind(r *rand.Rand) string {
+	const letters = "ABCDEFGHIJKLMNOPQRSTUVWXYZabcdefghijklmnopqrstuvwxyz0123456789"
 	switch r.Intn(10) {
-	case 0:
+	case 0, 1:
+		// random identifier; every second one ends in s / ss / es
 		n := 1 + r.Intn(6)
 		b := make([]byte, n)
 		for i := range b {
-			b[i] = pick(r, "ABCDEFGHIJKLMNOPQRSTUVWXYZabcdefghijklmnopqrstuvwxyz0123456789")
+			b[i] = pick(r, letters)
 		}
-		return string(b)
+		return string(b) + []string{"", "", "", "s", "S", "ss", "es"}[r.Intn(7)]
+	case 2, 3, 4:
+		return KindZoo[r.Intn(len(KindZoo))]
 	default:
 		return wfKinds[r.Intn(len(wfKinds))]
 	}
@@ -321,3 +334,29 @@ func RandomNumString(r *rand.Rand) string {
 		return strconv.Itoa(r.Intn(12000))
 	}
 }
+
+// KindClass: the histogram class of an owner kind.
+func KindClass(k string) string {
+	switch k {
+	case "StatefulSet", "ReplicaSet", "NULL", "":
+		return k
+	}
+	if strings.Contains(k, "_") {
+		return "with-underscore"
+	}
+	switch strings.ToLower(k) {
+	case "statefulset", "statefulsets", "replicaset", "deployment", "sts", "dp", "null", "pool":
+		return "table-alias"
+	}
+	if len(k) == 1 {
+		return "one-letter"
+	}
+	if len(k) > 63 {
+		return "very-long"
+	}
+	if strings.HasSuffix(strings.ToLower(k), "s") {
+		return "ends-in-s"
+	}
+	return "custom"
+}
+
